@@ -144,6 +144,64 @@ theorem frame_nrow_normal_form (truth : Term → Bool) :
   unfold DataFrame_nrow
   cases truth (Term.sym "self") <;> rfl
 
+/-! ### key / attribute coherence: `__delitem__`, `pop`, `__delattr__`, `__getattr__`, `__getattribute__` -/
+
+def hasAttr : Term := Term.app "hasattr" [Term.sym "self", Term.sym "key"]
+def builtinAttr : Term := Term.app ".__is_builtin_attr" [Term.sym "self", Term.sym "key"]
+def dropPlaceholder : Term := Term.app "super().__delattr__" [Term.sym "key"]
+
+/-- `del data[key]` as written: the dict entry goes first; then the instance attribute of that name is deleted
+    exactly when one exists and it is not a class attribute — the model's `dropAttr` ("once removed it is
+    reachable by neither", fixed a662945). -/
+theorem delitem_drops_placeholder (truth : Term → Bool) :
+    DataFrame_delitem truth =
+      Out.ret (if truth hasAttr && !truth builtinAttr then [dropPlaceholder] else [])
+        (Term.app "super().__delitem__" [Term.sym "key"]) := by
+  unfold DataFrame_delitem hasAttr builtinAttr dropPlaceholder
+  cases truth (Term.app "hasattr" [Term.sym "self", Term.sym "key"]) <;>
+    cases truth (Term.app ".__is_builtin_attr" [Term.sym "self", Term.sym "key"]) <;> rfl
+
+/-- `pop` does the same clean-up as `del`. -/
+theorem pop_drops_placeholder (truth : Term → Bool) :
+    DataFrame_pop truth =
+      Out.ret (if truth hasAttr && !truth builtinAttr then [dropPlaceholder] else [])
+        (Term.app "super().pop" [Term.sym "key", Term.app "*" [Term.sym "args"], Term.app "=**" [Term.sym "kwargs"]]) := by
+  unfold DataFrame_pop hasAttr builtinAttr dropPlaceholder
+  cases truth (Term.app "hasattr" [Term.sym "self", Term.sym "key"]) <;>
+    cases truth (Term.app ".__is_builtin_attr" [Term.sym "self", Term.sym "key"]) <;> rfl
+
+/-- `del data.name` deletes the column of that name when there is one (through `__delitem__`, hence with the
+    clean-up above), and is ordinary attribute deletion otherwise. -/
+theorem delattr_dispatch (truth : Term → Bool) :
+    DataFrame_delattr truth =
+      if truth (Term.app "In" [Term.sym "name", Term.sym "self"])
+      then Out.ret [] (Term.app ".__delitem__" [Term.sym "self", Term.sym "name"])
+      else Out.ret [] (Term.app "super().__delattr__" [Term.sym "name"]) := by
+  unfold DataFrame_delattr; rfl
+
+/-- attribute lookup that found nothing: the column of that name, or AttributeError — never a default. -/
+theorem getattr_column_or_error (truth : Term → Bool) :
+    DataFrame_getattr truth =
+      if truth (Term.app "In" [Term.sym "name", Term.sym "self"])
+      then Out.ret [] (Term.app ".__getitem__" [Term.sym "self", Term.sym "name"])
+      else Out.raise [] "AttributeError" := by
+  unfold DataFrame_getattr; rfl
+
+/-- **the placeholder never leaks while the column exists**: attribute lookup that finds the placeholder object
+    returns the column of that name whenever the name is a key; the only way to see the placeholder is to ask
+    for `COLUMN_PLACEHOLDER` itself or for a name that is no longer a key (which `delitem_drops_placeholder`
+    rules out). -/
+theorem getattribute_swaps_placeholder (truth : Term → Bool)
+    (hname : truth (Term.app "Eq" [Term.sym "name", Term.sym "'COLUMN_PLACEHOLDER'"]) = false) :
+    DataFrame_getattribute truth =
+      if truth (Term.app "Is" [Term.app "super().__getattribute__" [Term.sym "name"],
+                               Term.app ".COLUMN_PLACEHOLDER" [Term.sym "self"]]) &&
+         truth (Term.app "In" [Term.sym "name", Term.sym "self"])
+      then Out.ret [] (Term.app "getitem" [Term.sym "self", Term.sym "name"])
+      else Out.ret [] (Term.app "super().__getattribute__" [Term.sym "name"]) := by
+  unfold DataFrame_getattribute
+  simp [hname]
+
 example : FS.column (.seq 1) (some 3) = some 3 ∧ FS.column (.seq 2) (some 3) = none ∧
     FS.column (.seq 1) (some 0) = none ∧ FS.column (.seq 4) none = some 4 := by decide
 
